@@ -192,3 +192,81 @@ where
 
 end Driver
 end Rsbdd
+
+namespace Rsbdd
+namespace Driver
+open Gen Puzzles
+
+/-- variables of the sudoku formula: `_c_is_d` is sent as `c * 16 + d` -/
+def sudokuVid (c d : Nat) : Nat := c * 16 + d
+
+/-- the counting constraints and the hint literals of a right-nested conjunction ending in `true` -/
+def holdsConj (board : Nat → Bool) : Nat → Formula → Option Bool
+  | 0, _ => none
+  | _, .true_ => some true
+  | fuel + 1, .bin .and l r =>
+    let here : Option Bool := match l with
+      | .var v => some (board v)
+      | .cntConst op fs k => (cellsOfList fs).map (fun cells => SemExec.cntSem op (cells.filter board).length k)
+      | _ => none
+    match here, holdsConj board fuel r with
+    | some a, some b => some (a && b)
+    | _, _ => none
+  | _, _ => none
+
+/-- `sudoku|root|puzzle (hex, whitespace removed)|exit class|tree or ERR|solver rows or -` -/
+def handleC17 (fields : List String) : Verdict :=
+  match fields with
+  | ["sudoku", root, puzzle, cls, ast, solver] =>
+    match root.toNat?, unhexStr puzzle with
+    | some r, some ptext =>
+      let sq := r * r
+      let givens : List (Option Nat) := ptext.toList.map (fun ch => if ch.isDigit then some (ch.toNat - '0'.toNat) else none)
+      let inScope := (givens.take (sq * sq)).all (fun g => match g with
+        | some d => 1 ≤ d && d ≤ sq
+        | none => true)
+      if cls != "ok" then { modelOk := false, modelOut := "ok", oracle := some s!"sudoku_gen did not succeed ({cls})" } else
+      match parseFormula ast with
+      | none => { modelOk := false, modelOut := "a formula", oracle := some "the output is not a well-formed formula" }
+      | some f =>
+        let m := Sudoku.formula r givens sudokuVid
+        let modelOk := beqFormula m f
+        if !inScope || r > 3 then { modelOk, modelOut := "" } else
+        let fuel := 4 * (sq * sq * 4 + 100)
+        let boardOf := fun (g : List Nat) => fun (v : Nat) => g.getD (v / 16) 0 == v % 16
+        -- oracle (a): every completed grid that keeps the givens satisfies the formula (r ≤ 2: all of them)
+        let sols := if r ≤ 2 then solveSudoku r givens else []
+        let oa := match sols.find? (fun g => holdsConj (boardOf g) fuel f != some true) with
+          | some g => some s!"the completed grid {g} keeps the givens and is valid, but falsifies the emitted formula"
+          | none => none
+        -- oracle (b): near misses of every solution are rejected: changing one cell to another number
+        let ob := if r > 2 then none else
+          match sols.findSome? (fun g => (List.range (sq * sq)).findSome? (fun c => ((List.range sq).map (· + 1)).findSome? (fun d =>
+              if g.getD c 0 == d then none else
+              let g' := g.set c d
+              if holdsConj (boardOf g') fuel f == some true then some (g', c) else none))) with
+          | some (g', c) => some s!"the grid {g'} (a solution with cell {c} changed) is not valid but satisfies the emitted formula"
+          | none => none
+        -- oracle (c): a cell with no number / two numbers is rejected
+        let oc := if r > 2 then none else
+          match sols.head? with
+          | some g =>
+            let b0 := fun (v : Nat) => if v / 16 == 0 then false else boardOf g v
+            let b2 := fun (v : Nat) => if v / 16 == 0 && v % 16 ≥ 1 && v % 16 ≤ 2 then true else boardOf g v
+            if holdsConj b0 fuel f == some true then some "an assignment leaving cell 0 without a number satisfies the formula"
+            else if sq ≥ 2 && holdsConj b2 fuel f == some true then some "an assignment giving cell 0 two numbers satisfies the formula"
+            else none
+          | none => none
+        -- oracle (d): what the real solver lists (exact model-set equality, r ≤ 2)
+        let od := if solver == "-" || r > 2 then none else
+          let rows := (solver.splitOn ";").filter (· ≠ "")
+          let want := sols.map (fun g => String.intercalate "." (sortStrings (g.zipIdx.map (fun (d, c) => toString (sudokuVid c d)))))
+          let rowsN := rows.map (fun r => String.intercalate "." (sortStrings ((r.splitOn ".").filter (· ≠ ""))))
+          if rowsN.all (want.contains ·) && want.all (rowsN.contains ·) && rowsN.length == want.length then none
+          else some s!"rsbdd lists {rows.length} models, the puzzle has {want.length} solutions"
+        { modelOk, modelOut := "", oracle := orElse oa (orElse ob (orElse oc od)), nontrivial := r ≥ 2 }
+    | _, _ => Verdict.badLine "unreadable sudoku line"
+  | _ => Verdict.badLine "unknown C17 line"
+
+end Driver
+end Rsbdd
